@@ -15,4 +15,5 @@ for p in "$@"; do
   echo "== $p rc=$rc $(echo "$out" | grep -E "^$p \[" | cut -c1-170)"
   echo "$out" | grep -E "signature:|INCONCLUSIVE|HARNESS|note:" | sort | uniq -c | cut -c1-220 | head -10
 done
+mkdir -p /tmp/hang-diags; cp "$scratch"/evidence/replays/*-hang-* "$scratch"/evidence/replays/*-abort-* /tmp/hang-diags/ 2>/dev/null
 rm -rf "$scratch"
